@@ -2,6 +2,7 @@ import NiVerif.DriverCore
 import NiVerif.Gen.TimeDelta
 import NiVerif.Gen.DateTime
 import NiVerif.Model.Record
+import NiVerif.Model.BtElem
 def main : IO Unit := Driver.run [
   Driver.genHandler Gen.TimeValueTuple.dispatch, Driver.genHandler Gen.TimeDelta.dispatch,
-  Driver.genHandler Gen.DateTime.dispatch, Model.Record.dispatch]
+  Driver.genHandler Gen.DateTime.dispatch, Model.Record.dispatch, Model.BtElem.dispatch]
